@@ -102,6 +102,7 @@ static inline _Bool atomic_b_exchange(atomic_b *a, _Bool v, int mo)
   {
     /* GUARANTEE: a flag becomes true only in the claim step of the thread that then owns it */
     __CPROVER_assert(!ID.own, "[C05][G.claim] a thread claims at most one id at a time");
+    __CPROVER_assert(VERIF_IS_ACQUIRE(mo), "[C15][C04][acquire] the claiming exchange acquires: it pairs with the release store of the exiting owner, after which that owner's heartbeat is expired");
     ID.own = 1;
     ID.my_id = i;
     ID.claimed_from_free = 1;
@@ -118,6 +119,7 @@ static inline void atomic_b_store(atomic_b *a, _Bool v, int mo)
   if(!v)
   {
     __CPROVER_assert(ID.own && i == ID.my_id, "[C05][C14][G.clear-own] a thread clears only the reservation flag it owns");
+    __CPROVER_assert(VERIF_IS_RELEASE(mo), "[C15][C04][publish] the reservation flag is released with release order (the expiry of the heartbeat happens-before the next owner's claim)");
     __CPROVER_assert(!ID.my_gen_alive, "[C15][C04][G.exit-order] the reservation flag is released only after this thread's heartbeat has expired");
     ID.own = 0;
     ID.nclears++;
